@@ -351,7 +351,60 @@ fn shapes(limit: usize) -> Option<String> {
     None
 }
 
+// C07 bounded stand-in on real transforms: a k-chunk call equals k single-chunk calls bit for bit, on all three entry points
+fn chunks_one(desc: &str, f: &dyn Fft<f64>) -> Option<String> {
+    let n = f.len();
+    if n == 0 { return None; }
+    let gen = |i: usize| Complex::new(((i * 7 + 3) % 11) as f64 - 5.0, ((i * 5 + 1) % 13) as f64 * 0.25);
+    let same = |a: &[Complex<f64>], b: &[Complex<f64>]| a.len() == b.len() && a.iter().zip(b.iter()).all(|(x, y)| x.re.to_bits() == y.re.to_bits() && x.im.to_bits() == y.im.to_bits());
+    for entry in 0..3 {
+        let adv = match entry { 0 => f.get_inplace_scratch_len(), 1 => f.get_outofplace_scratch_len(), _ => f.get_immutable_scratch_len() };
+        let name = ["process_with_scratch", "process_outofplace_with_scratch", "process_immutable_with_scratch"][entry];
+        let run = |data: &[Complex<f64>]| -> Vec<Complex<f64>> {
+            let mut a = data.to_vec();
+            let mut b = vec![Complex::new(-777.0, 777.0); data.len()];
+            let mut sc = vec![Complex::new(0.0, 0.0); adv];
+            match entry { 0 => { f.process_with_scratch(&mut a, &mut sc); a }, 1 => { f.process_outofplace_with_scratch(&mut a, &mut b, &mut sc); b }, _ => { f.process_immutable_with_scratch(&a, &mut b, &mut sc); b } }
+        };
+        for k in 1..=6usize {
+            let data: Vec<Complex<f64>> = (0..k * n).map(gen).collect();
+            let r = quiet(|| {
+                let whole = run(&data);
+                for c in 0..k {
+                    let single = run(&data[c * n..(c + 1) * n]);
+                    if !same(&whole[c * n..(c + 1) * n], &single) { return Some(format!("{desc}.{name}: chunk {c} of a {k}-chunk call differs from the same chunk transformed alone")); }
+                }
+                None
+            });
+            match r { Err(e) => return Some(format!("{desc}.{name} with {k} chunks panicked: {}", panic_msg(e))), Ok(Some(x)) => return Some(x), Ok(None) => {} }
+        }
+    }
+    None
+}
+fn chunks(limit: usize) -> Option<String> {
+    use crate::algorithm::butterflies::*;
+    let d = FftDirection::Forward;
+    macro_rules! b { ($($t:ident),*) => { $( if let Some(x) = chunks_one(concat!(stringify!($t), "::new(Forward)"), &$t::<f64>::new(d)) { return Some(x); } )* } }
+    b!(Butterfly1, Butterfly2, Butterfly3, Butterfly4, Butterfly5, Butterfly6, Butterfly7, Butterfly8, Butterfly9, Butterfly11, Butterfly12, Butterfly13,
+       Butterfly16, Butterfly17, Butterfly19, Butterfly23, Butterfly24, Butterfly27, Butterfly29, Butterfly31, Butterfly32);
+    for n in 1..4 { if let Some(x) = chunks_one(&format!("Dft::new({n}, Forward)"), &Dft::<f64>::new(n, d)) { return Some(x); } }
+    for n in 1..limit {
+        let f = crate::FftPlannerScalar::<f64>::new().plan_fft(n, if n % 2 == 0 { FftDirection::Forward } else { FftDirection::Inverse });
+        if let Some(x) = chunks_one(&format!("FftPlannerScalar.plan_fft({n})"), &*f) { return Some(x); }
+    }
+    None
+}
+
 pub fn search(which: &str) -> Option<String> {
+    if let Some(rest) = which.strip_prefix("chunks:") { return chunks(rest.parse().unwrap_or(64)); }
+    if which == "helpers_small" {
+        for w in ["validate_and_iter", "fft_helper_inplace", "validate_and_iter_unroll2x", "fft_helper_inplace_unroll2x", "validate_and_zip", "fft_helper_immut",
+                  "validate_and_zip_mut", "fft_helper_outofplace", "validate_and_zip_unroll2x", "fft_helper_immut_unroll2x", "validate_and_zip_mut_unroll2x",
+                  "fft_helper_outofplace_unroll2x", "fft_error_inplace", "fft_error_outofplace", "fft_error_immut"] {
+            if let Some(x) = super::search(w) { return Some(x); }
+        }
+        return None;
+    }
     if let Some(rest) = which.strip_prefix("shapes:") { return shapes(rest.parse().unwrap_or(64)); }
     if which == "plan_history:quick" {
         return plan_history(&[5, 16, 25, 36, 37, 59, 64, 74, 100, 101, 128, 192, 193, 407], 2).or_else(|| plan_history(&[5, 25, 36, 37, 59, 64], 3));
@@ -383,6 +436,6 @@ pub fn search(which: &str) -> Option<String> {
     }
 }
 pub fn known(which: &str) -> bool {
-    which.starts_with("partition:") || which.starts_with("plan_scalar:") || which.starts_with("plan_history:") || which.starts_with("shapes:") || which == "sqrt_limit"
+    which.starts_with("partition:") || which.starts_with("plan_scalar:") || which.starts_with("plan_history:") || which.starts_with("shapes:") || which.starts_with("chunks:") || which == "helpers_small" || which == "sqrt_limit"
         || matches!(which, "MixedRadix" | "MixedRadixSmall" | "GoodThomasAlgorithm" | "GoodThomasAlgorithmSmall" | "Radix4" | "Radix3" | "RadersAlgorithm" | "BluesteinsAlgorithm")
 }
